@@ -81,18 +81,20 @@ def cleanup (l : Life) : Life × Bool :=
 
 /-- the rest of `close()` once its `try:` suite has ended with `r`:
 `except EOFError: pass` / `except Exception: if not close_catchall: raise` / `finally: self._cleanup()`.
-Returns the state and whether the call raised. -/
-def finishClose (r : TryRes) (l : Life) : Life × Bool :=
+Returns the state and what the call raises (an AttributeError from the `finally` replaces the hook's exception). -/
+def finishClose (r : TryRes) (l : Life) : Life × Option CloseExc :=
   match cleanup l with
-  | (l', true) => ({ l' with inClose := false, closeRaised := l'.closeRaised ++ [.attributeError] }, true)
+  | (l', true) => ({ l' with inClose := false }, some .attributeError)
   | (l', false) =>
     match r with
-    | .hookRaised false => ({ l' with inClose := false, closeRaised := l'.closeRaised ++ [.user] }, true)
-    | _ => ({ l' with inClose := false }, false)
+    | .hookRaised false => ({ l' with inClose := false }, some .user)
+    | _ => ({ l' with inClose := false }, none)
 
-/-- a whole `close()` call (used where nothing can be served in between) -/
+/-- a whole `close()` call made by the connection itself (`serve`'s and `_dispatch`'s `except EOFError`,
+`serve_all`'s `finally`), where nothing can be served in between; the flag says whether it raised -/
 def closeCall (r : TryRes) (l : Life) : Life × Bool :=
-  if l.closed then (l, false) else finishClose r { l with closed := true }
+  if l.closed then (l, false)
+  else ((finishClose r { l with closed := true }).1, (finishClose r { l with closed := true }).2.isSome)
 
 /-- EOFError (or what `close()` raised in its place) travels up through every wait loop of this side -/
 def resolveBlocked (res : Res) (l : Life) : Life :=
@@ -148,7 +150,10 @@ def step (l : Life) : Ev → Option Life
     -- `if self._closed: return` / `self._closed = True`
     if l.closed then some l else some { l with closed := true, inClose := true }
   | .closeEnd r =>
-    if l.inClose then some (finishClose r l).1 else none
+    -- (`closeRaised` records what the application's own `close()` calls raised)
+    if l.inClose then
+      some { (finishClose r l).1 with closeRaised := (finishClose r l).1.closeRaised ++ (finishClose r l).2.toList }
+    else none
   | .recvClose =>
     -- needs a live channel; `_handle_close` → `_cleanup()`; the reply to it cannot be written (EOFError):
     -- `_dispatch` calls `close()` (returns at once) and re-raises into every wait loop
